@@ -32,6 +32,8 @@ echo "demo without change: $demo_without"
 echo "suite passes with=$suite_with without=$suite_without"
 # run checks against /repo with the change
 git -C /repo apply "$OUT/patch.diff" || exit 2
+baseline=$(python3 tools/repo_tests.py 2>&1 | grep -E "passing now" | tail -1)
+echo "pinned suite in /repo with the change: $baseline"
 declare -A verdict
 for c in "$@"; do
   o=$(./check "$c" quick 2>&1); rc=$?
@@ -40,16 +42,16 @@ for c in "$@"; do
   verdict[$c]="rc=$rc $(echo "$v" | head -1 | sed 's/"/'"'"'/g' | cut -c1-300)"
 done
 git -C /repo checkout -- . && git -C /repo clean -fdq
-python3 - "$ID" "$res_apply" "$res_build" "$demo_with" "$demo_without" "$suite_with" "$suite_without" "$(for c in "$@"; do echo "$c|${verdict[$c]}"; done)" <<'PY'
+python3 - "$ID" "$res_apply" "$res_build" "$demo_with" "$demo_without" "$suite_with" "$suite_without" "$(for c in "$@"; do echo "$c|${verdict[$c]}"; done)" "$baseline" <<'PY'
 import json,sys,os
-id_,apply_,build,dw,dwo,sw,swo,verd=sys.argv[1:9]
+id_,apply_,build,dw,dwo,sw,swo,verd,baseline=sys.argv[1:10]
 checks={}
 for line in verd.splitlines():
     if '|' in line:
         c,v=line.split('|',1); checks[c]=v
 p=f'/verif/seeded/{id_}/meta.json'
 meta=json.load(open(p)) if os.path.exists(p) else {}
-meta.update({"id":id_,"independent_confirmation":{"patch_applies":apply_,"build_errors":int(build),"demo_with_change":dw,"demo_without_change":dwo,"repo_suite_passes_with_change":int(sw),"repo_suite_passes_without_change":int(swo),"commands":["git worktree add /tmp/ev/<id> HEAD; git apply patch.diff; cargo build -p datasketches --offline [--features verif-hooks]","cargo test -p datasketches --offline --test seeded_demo (with and without the change)","cargo test -p datasketches --offline --no-fail-fast (count of passing tests with and without)"]},"checks_quick":checks})
+meta.update({"id":id_,"independent_confirmation":{"patch_applies":apply_,"build_errors":int(build),"demo_with_change":dw,"demo_without_change":dwo,"repo_suite_passes_with_change":int(sw),"repo_suite_passes_without_change":int(swo),"pinned_suite_in_repo_with_change":baseline,"commands":["git worktree add /tmp/ev/<id> HEAD; git apply patch.diff; cargo build -p datasketches --offline [--features verif-hooks]","cargo test -p datasketches --offline --test seeded_demo (with and without the change)","cargo test -p datasketches --offline --no-fail-fast (count of passing tests with and without)"]},"checks_quick":checks})
 json.dump(meta,open(p,'w'),indent=1)
 print("meta written")
 PY
